@@ -1,2 +1,61 @@
--- stub: driver for C17 not written yet
-def main : IO Unit := pure ()
+import CMacVerif.Model.Predicates
+import CMacVerif.Inst.Float
+import CMacVerif.Util.Bits
+open CMacVerif CMacVerif.Util CMacVerif.Predicates
+
+/-- `get_mantissa` of a double -/
+def mantF (x : Float) : Int := mantissa (bitsOf x)
+
+def v3OfBits : List String → Option (V3 Nat × List String)
+  | x :: y :: z :: rest => some (⟨nat! x, nat! y, nat! z⟩, rest)
+  | _ => none
+
+def pts : Nat → List String → Option (List (V3 Nat))
+  | 0, [] => some []
+  | 0, _ => none
+  | n + 1, l => match v3OfBits l with
+    | some (p, rest) => (pts n rest).map (p :: ·)
+    | none => none
+
+def sg (i : Int) : String := toString i
+
+/-- branch tag: which way the adaptive routine decided -/
+def tag (filt exact : Int) : String :=
+  if filt = 1 then "filter-pos" else if filt = -1 then "filter-neg"
+  else if exact = 1 then "fallback-pos" else if exact = -1 then "fallback-neg" else "fallback-zero"
+
+def step (s : Unit) : List String → Unit × String
+  | ["widths"] => (s, s!"widths {orientBits} {insphereBits}")
+  | "box" :: _ => (s, "box")   -- implementation-level oracle only (range of the rescaled coordinates)
+  | "oe" :: rest =>       -- exact orientation test only, arbitrary bit patterns
+    match pts 4 rest with
+    | some [a, b, c, d] =>
+      (s, s!"oe {sg (orient3dExact (a.map mantissa) (b.map mantissa) (c.map mantissa) (d.map mantissa))}")
+    | _ => (s, "bad-op")
+  | "ie" :: rest =>
+    match pts 5 rest with
+    | some [a, b, c, d, e] =>
+      (s, s!"ie {sg (insphereExact (a.map mantissa) (b.map mantissa) (c.map mantissa) (d.map mantissa) (e.map mantissa))}")
+    | _ => (s, "bad-op")
+  | "o" :: rest =>        -- exact and adaptive orientation test, coordinates in [1,2)
+    match pts 4 rest with
+    | some [a, b, c, d] =>
+      let ex := orient3dExact (a.map mantissa) (b.map mantissa) (c.map mantissa) (d.map mantissa)
+      let af := a.map fOfBits; let bf := b.map fOfBits; let cf := c.map fOfBits; let df := d.map fOfBits
+      let fs := filterSign (orientFilter af bf cf df)
+      let ad := orient3dAdaptive mantF af bf cf df
+      (s, s!"o {sg ex} {sg ad} #{tag fs ex}")
+    | _ => (s, "bad-op")
+  | "i" :: rest =>
+    match pts 5 rest with
+    | some [a, b, c, d, e] =>
+      let ex := insphereExact (a.map mantissa) (b.map mantissa) (c.map mantissa) (d.map mantissa) (e.map mantissa)
+      let af := a.map fOfBits; let bf := b.map fOfBits; let cf := c.map fOfBits; let df := d.map fOfBits
+      let ef := e.map fOfBits
+      let fs := filterSign (insphereFilter af bf cf df ef)
+      let ad := insphereAdaptive mantF af bf cf df ef
+      (s, s!"i {sg ex} {sg ad} #{tag fs ex}")
+    | _ => (s, "bad-op")
+  | _ => (s, "bad-op")
+
+def main : IO Unit := runDriver step ()
